@@ -92,6 +92,14 @@ class Unmodelled(Exception):
     pass
 
 
+class BreakSig(Exception):
+    pass
+
+
+class ContinueSig(Exception):
+    pass
+
+
 class Oracle:
     """replays a vector of choices; new choice points take option 0 and are recorded for backtracking"""
 
@@ -470,8 +478,71 @@ class Interp:
                     break
                 env2 = dict(env)
                 self.match_pat(e["pat"], x.v, env2)
-                self.ev(e["body"], env2)
+                try:
+                    self.ev(e["body"], env2)
+                except BreakSig:
+                    break
+                except ContinueSig:
+                    continue
         return UNIT
+
+    def _loop(self, cond, body, env):
+        for _round in range(64):
+            if cond is not None:
+                if cond.get("k") == "LetCond":
+                    v = self.ev(cond["e"], env)
+                    env2 = dict(env)
+                    r = self.match_pat(cond["pat"], v, env2)
+                    if r is None:
+                        r = self.oracle.choose(2, "while let") == 0
+                    if not r:
+                        return UNIT
+                else:
+                    env2 = env
+                    if not self.truth(self.ev(cond, env), "while"):
+                        return UNIT
+            else:
+                env2 = env
+            try:
+                self.ev(body, env2)
+            except BreakSig:
+                return UNIT
+            except ContinueSig:
+                continue
+        raise Unmodelled("loop does not terminate on an abstract input")
+
+    def e_While(self, e, env):
+        return self._loop(e["cond"], e["body"], env)
+
+    def e_Loop(self, e, env):
+        return self._loop(None, e["body"], env)
+
+    def e_Break(self, e, env):
+        if e.get("e"):
+            self.ev(e["e"], env)
+        raise BreakSig()
+
+    def e_Continue(self, e, env):
+        raise ContinueSig()
+
+    def e_Unary(self, e, env):
+        v = self.ev(e["e"], env)
+        if e.get("op") == "!" and isinstance(v, BoolV):
+            return BoolV(not v.b)
+        if e.get("op") in ("*", "&"):
+            return v
+        return OPQ
+
+    def e_Index(self, e, env):
+        self.ev(e["base"], env)
+        self.ev(e["index"], env)
+        return OPQ
+
+    def e_Unsafe(self, e, env):
+        return self.block(e["stmts"], env)
+
+    def e_Verbatim(self, e, env):
+        return OPQ
 
     def next_of(self, it):
         if isinstance(it, MapIter):
